@@ -24,6 +24,8 @@ structure MinI where
 
 def minItem : Item MinI Unit Int where
   merge l r := if l.v < r.v then l else r
+  -- the trait's default `update`: `*self = merge(left, right)`
+  update _ l r := if l.v < r.v then l else r
   modify x _ := x
   push p l r := (p, l, r)
   dflt := ⟨i64Max⟩
@@ -38,6 +40,8 @@ structure MaxI where
 
 def maxItem : Item MaxI Unit Int where
   merge l r := if l.v > r.v then l else r
+  -- the trait's default `update`: `*self = merge(left, right)`
+  update _ l r := if l.v > r.v then l else r
   modify x _ := x
   push p l r := (p, l, r)
   dflt := ⟨i64Min⟩
@@ -52,6 +56,8 @@ structure SumI where
 
 def sumItem : Item SumI Unit Int where
   merge l r := ⟨l.v + r.v⟩
+  -- the trait's default `update`: `*self = merge(left, right)`
+  update _ l r := ⟨l.v + r.v⟩
   modify x _ := x
   push p l r := (p, l, r)
   dflt := ⟨0⟩
@@ -69,6 +75,8 @@ structure MinAdd where
 
 def minAddItem : Item MinAdd Int Int where
   merge l r := ⟨if l.v < r.v then l.v else r.v, 0⟩
+  -- the trait's default `update`: `*self = merge(left, right)`
+  update _ l r := ⟨if l.v < r.v then l.v else r.v, 0⟩
   modify x m := ⟨x.v + m, x.md + m⟩
   push p l r := (⟨p.v, 0⟩, ⟨l.v + p.md, l.md + p.md⟩, ⟨r.v + p.md, r.md + p.md⟩)
   dflt := ⟨i64Max, 0⟩
@@ -84,6 +92,8 @@ structure MaxAdd where
 
 def maxAddItem : Item MaxAdd Int Int where
   merge l r := ⟨if l.v > r.v then l.v else r.v, 0⟩
+  -- the trait's default `update`: `*self = merge(left, right)`
+  update _ l r := ⟨if l.v > r.v then l.v else r.v, 0⟩
   modify x m := ⟨x.v + m, x.md + m⟩
   push p l r := (⟨p.v, 0⟩, ⟨l.v + p.md, l.md + p.md⟩, ⟨r.v + p.md, r.md + p.md⟩)
   dflt := ⟨i64Min, 0⟩
@@ -101,6 +111,8 @@ structure SumAdd where
 
 def sumAddItem : Item SumAdd Int (Int × Int) where
   merge l r := ⟨l.v + r.v, l.len + r.len, 0⟩
+  -- the trait's default `update`: `*self = merge(left, right)`
+  update _ l r := ⟨l.v + r.v, l.len + r.len, 0⟩
   modify x m := ⟨x.v + m * x.len, x.len, x.md + m⟩
   push p l r := (⟨p.v, p.len, 0⟩, ⟨l.v + p.md * l.len, l.len, l.md + p.md⟩, ⟨r.v + p.md * r.len, r.len, r.md + p.md⟩)
   dflt := ⟨0, 0, 0⟩
@@ -113,6 +125,8 @@ def sumAddItem : Item SumAdd Int (Int × Int) where
 
 def prodItem {T U M A B : Type} (I : Item T M A) (J : Item U M B) : Item (T × U) M (A × B) where
   merge l r := (I.merge l.1 r.1, J.merge l.2 r.2)
+  -- `Combinator` does not override `update`: the trait default merges, the components' own `update` is NOT called
+  update _ l r := (I.merge l.1 r.1, J.merge l.2 r.2)
   modify x m := (I.modify x.1 m, J.modify x.2 m)
   push p l r :=
     let a := I.push p.1 l.1 r.1
@@ -152,6 +166,8 @@ def affModify (x : AffHash) (m : Int × Int) : AffHash :=
 
 def affHashItem : Item AffHash (Int × Int) (Int × Int × Int) where
   merge l r := ⟨(l.h * r.pw + r.h) % hashP, (l.pw * r.pw) % hashP, (l.s * r.pw + r.s) % hashP, none⟩
+  -- the trait's default `update`: `*self = merge(left, right)`
+  update _ l r := ⟨(l.h * r.pw + r.h) % hashP, (l.pw * r.pw) % hashP, (l.s * r.pw + r.s) % hashP, none⟩
   modify := affModify
   push p l r :=
     match p.md with
@@ -190,6 +206,8 @@ def strModify (x : StrCat) (m : Nat × Nat) : StrCat :=
 
 def strCatItem : Item StrCat (Nat × Nat) (List Nat) where
   merge l r := ⟨l.s ++ r.s, none⟩
+  -- the trait's default `update`: `*self = merge(left, right)`
+  update _ l r := ⟨l.s ++ r.s, none⟩
   modify := strModify
   push p l r :=
     match p.md with
